@@ -294,6 +294,20 @@ class Exec:
         size = s.sizeof(t)
         o = s.check_access(st, p, size, 'load')
         if isc(p.off): return s.load_cell(st, o, p.off, size, t)
+        if o.const and o.size // size <= 512 and t.k == 'int':
+            # lookup table with a symbolic index: ite-chain over all entries, grouped by value (no solver calls)
+            groups = {}
+            for off in range(0, o.size - size + 1, size):
+                cv = s.load_cell(st, o, off, size, t)
+                if not (isc(cv) or isinstance(cv, bool)): groups = None; break
+                groups.setdefault(cv, []).append(off)
+            if groups is not None:
+                items = sorted(groups.items(), key=lambda kv: -len(kv[1]))
+                res = items[0][0]
+                for val, offs in items[1:]:
+                    cond = z3.Or(*[p.off == z3.BitVecVal(off, 64) for off in offs])
+                    res = s.ite(cond, val, res, t)
+                return z3.simplify(res) if z3.is_expr(res) else res
         # symbolic offset: ite-chain over the offsets that are feasible under the path condition
         res = None
         for off in s.feasible_values(st, p.off, 256):
@@ -1050,6 +1064,13 @@ class Exec:
             m = s.sat(st, z3.Not(c))
             if m is not None: raise Violation('assert', 'harness assertion violated at ' + site, st, m)
             return 0
+        if name == 'verif_concretize':
+            v = a[0]
+            if isc(v): return v
+            s.assume(st, z3.ULE(v, z3.BitVecVal(a[1], 64)))
+            vals = s.feasible_values(st, v, 4096)
+            for k in vals[:-1]: s.fork_ret(st, x, v == z3.BitVecVal(k, 64), k & ((1 << 64) - 1), work)
+            s.assume(st, v == z3.BitVecVal(vals[-1], 64)); return vals[-1] & ((1 << 64) - 1)
         if name == 'verif_observe':
             st.obs.append((a[0], a[1])); return 0
         if name in ('_Znwm', '_Znam', 'malloc'):
@@ -1183,6 +1204,26 @@ class Exec:
             if not hasattr(st, 'errno_obj') or st.errno_obj not in st.objs:
                 st.errno_obj = s.new_obj(st, 4, 'errno', kind='zero')
             return Ptr(st.errno_obj, 0)
+        if name in ('getenv', 'secure_getenv'):
+            s.stats['stubs'].add('getenv -> NULL (no environment)'); return NULL
+        if name in ('isdigit', 'isalpha', 'isalnum', 'isspace', 'isupper', 'islower', 'toupper', 'tolower', 'isprint', 'ispunct', 'isxdigit'):
+            s.stats['stubs'].add('<cctype> ' + name + ' -> C locale definition')
+            c = a[0]
+            if isc(c):
+                ch = c & 0xffffffff; ch = ch if ch < 256 else -1
+                import string as _st
+                cs = chr(ch) if 0 <= ch < 128 else ''
+                if name == 'toupper': return ord(cs.upper()) if cs else c
+                if name == 'tolower': return ord(cs.lower()) if cs else c
+                return int({'isdigit': cs.isdigit(), 'isalpha': cs.isalpha() and cs != '', 'isalnum': cs.isalnum() and cs != '', 'isspace': cs in ' \t\n\v\f\r' and cs != '',
+                            'isupper': cs.isupper(), 'islower': cs.islower(), 'isprint': 32 <= ch < 127, 'ispunct': cs in _st.punctuation and cs != '', 'isxdigit': cs in _st.hexdigits and cs != ''}[name])
+            def rng(lo, hi): return z3.And(z3.UGE(c, z3.BitVecVal(lo, 32)), z3.ULE(c, z3.BitVecVal(hi, 32)))
+            up = rng(65, 90); lowr = rng(97, 122); dig = rng(48, 57)
+            if name == 'toupper': return z3.If(lowr, c - 32, c)
+            if name == 'tolower': return z3.If(up, c + 32, c)
+            cond = {'isdigit': dig, 'isalpha': z3.Or(up, lowr), 'isalnum': z3.Or(up, lowr, dig), 'isspace': z3.Or(c == 32, rng(9, 13)), 'isupper': up, 'islower': lowr, 'isprint': rng(32, 126),
+                    'ispunct': z3.Or(rng(33, 47), rng(58, 64), rng(91, 96), rng(123, 126)), 'isxdigit': z3.Or(dig, rng(65, 70), rng(97, 102))}[name]
+            return z3.If(cond, z3.BitVecVal(1, 32), z3.BitVecVal(0, 32))
         if name == 'difftime':
             s.stats['stubs'].add('difftime(a,b) = (double)a - (double)b')
             def tod(v):
